@@ -88,6 +88,7 @@ where
         let mut tg = TypedGen::new(g, fixture.1.v1(), C::FL);
         tg.max_len = 3;
         tg.budget = 150;
+        tg.alt_kind_chance = (1, 40);
         if tg.g.chance(1, 4) {
             tg.mutate_at = Some(tg.g.index(12));
         }
@@ -125,8 +126,11 @@ where
         }
     };
     let value = match typed {
-        Err(_) => {
+        Err(e) => {
             // allowed: typed decoders add content checks
+            if mutation.is_none() && std::env::var("VERIF_C22_DEBUG").map(|t| name.contains(&t)).unwrap_or(false) {
+                eprintln!("[C22 debug] {} rejects {} = {} : {:?}", name, hexs(&payload[..payload.len().min(200)]), tree_text, e);
+            }
             g.label(entry.rejected_label);
             if mutation.is_none() {
                 g.label("typed decoder stricter than schema");
